@@ -145,7 +145,7 @@ def run(chk):
         # error bound of the product (sum over rows of digit^2 * row noise) assumes |digit| <= Bg/2
         from rules import c04, c12
         # (C12.R4, "the input is restored", concerns the caller's operand, not the product: C15's business)
-        c12.check_variant(c04._Sub(chk, "R6", skip={"R4", "R6"}), v)
+        c12.check_variant(c04._Sub(chk, "R6", skip={"R4"}), v)
         # ---------------- R1 coefficient external product
         f = v.fn("tGswExternMulToTLwe")
         ps, _ = summ.pieces(v, f, hooks=NOINLINE)
